@@ -129,7 +129,7 @@ type Obligation struct {
 }
 
 type VC struct {
-	ghostAt     ssa.Instruction // the anchor instruction of the ghost statement being executed
+	ghostAt         ssa.Instruction // the anchor instruction of the ghost statement being executed
 	anchorsHit      map[string]bool
 	p               *Prog
 	env             *Env
